@@ -69,8 +69,10 @@ Definition refactor_template (tops : option (list ExSyntax.text)) (s : ExSyntax.
 
 End Refactor.
 
-(* ContextRefRename(from, to): exp.Visit over all nodes; every ContextReference whose Name is EqualFold to `from`
-   gets Name = to.  [is_from n] = strings.EqualFold(n, from) (a Go library function: enters as an argument). *)
+(* ContextRefRename(from, to) (context_rename.go, as repaired in /repo 881a989): every ContextReference whose Name is
+   EqualFold to `from` gets Name = to — except the references inside the body of an anonymous function that has a
+   parameter EqualFold to `from` (they refer to the parameter, not to the context).
+   [is_from n] = strings.EqualFold(n, from) (a Go library function: enters as an argument). *)
 Section Rename.
 Variable is_from : ExSyntax.text -> bool.
 Variable to : ExSyntax.text.
@@ -81,7 +83,7 @@ Fixpoint rename (e : expr) : expr :=
   | EDot c l => EDot (rename c) l
   | EIndex c l => EIndex (rename c) (rename l)
   | ECall f ps => ECall (rename f) (map rename ps)
-  | EAnon a b => EAnon a (rename b)
+  | EAnon a b => if existsb is_from a then EAnon a b else EAnon a (rename b)
   | EBin o a b => EBin o (rename a) (rename b)
   | ENeg a => ENeg (rename a)
   | EParen a => EParen (rename a)
@@ -91,7 +93,7 @@ Fixpoint rename (e : expr) : expr :=
   | ENull => ENull
   end.
 
-(* names of the context references, in source order *)
+(* names of all context references, in source order *)
 Fixpoint refs (e : expr) : list ExSyntax.text :=
   match e with
   | ECtxRef n => [n]
@@ -105,8 +107,35 @@ Fixpoint refs (e : expr) : list ExSyntax.text :=
   | _ => []
   end.
 
-(* the transformation function: changed iff some reference matched *)
+(* the references that are not under an anonymous function with a parameter named like `from` *)
+Fixpoint frefs (e : expr) : list ExSyntax.text :=
+  match e with
+  | ECtxRef n => [n]
+  | EDot c _ => frefs c
+  | EIndex c l => frefs c ++ frefs l
+  | ECall f ps => frefs f ++ flat_map frefs ps
+  | EAnon a b => if existsb is_from a then [] else frefs b
+  | EBin _ a b => frefs a ++ frefs b
+  | ENeg a => frefs a
+  | EParen a => frefs a
+  | _ => []
+  end.
+
+(* ... and those that are *)
+Fixpoint brefs (e : expr) : list ExSyntax.text :=
+  match e with
+  | EDot c _ => brefs c
+  | EIndex c l => brefs c ++ brefs l
+  | ECall f ps => brefs f ++ flat_map brefs ps
+  | EAnon a b => if existsb is_from a then refs b else brefs b
+  | EBin _ a b => brefs a ++ brefs b
+  | ENeg a => brefs a
+  | EParen a => brefs a
+  | _ => []
+  end.
+
+(* the transformation function: changed iff some free reference matched *)
 Definition rename_tx (e : expr) : option expr :=
-  if existsb is_from (refs e) then Some (rename e) else None.
+  if existsb is_from (frefs e) then Some (rename e) else None.
 
 End Rename.
